@@ -145,6 +145,18 @@ def forbidden_scan():
                 txt2 = re.sub(r"\(\*.*?\*\)", " ", txt, flags=re.S)
                 for m in FORBIDDEN.finditer(txt2):
                     hits.append(f"{os.path.relpath(p, COQ)}: {m.group(0)}")
+                # Variable / Hypothesis / Context are assumptions of the whole development unless inside a (closed) Section
+                depth = 0
+                for m in re.finditer(r"\b(Section|Module|End|Variables?|Hypothes[ie]s|Context)\b", txt2):
+                    w = m.group(1)
+                    if w in ("Section", "Module"):
+                        depth += 1
+                    elif w == "End":
+                        depth -= 1
+                    elif depth <= 0:
+                        hits.append(f"{os.path.relpath(p, COQ)}: {w} outside a section")
+                if depth != 0:
+                    hits.append(f"{os.path.relpath(p, COQ)}: unbalanced Section/End")
     return hits
 
 
